@@ -1,5 +1,9 @@
 //! Runtime-monitoring harness for mdsteele/rust-msi (see /verif/DESIGN.md).
 pub mod cpora;
+pub mod engine;
+pub mod fmt_codec;
+pub mod gen;
+pub mod propset_codec;
 pub mod exprmodel;
 pub mod exprparse;
 pub mod querymodel;
